@@ -86,3 +86,36 @@ def check(ctx):
     ok = len(r) == 1 and src(r[0].value).replace(" ", "") in ("FalseifinsidepvssidenotsideelseTrue".replace("pvs", "(p,vs,").replace("sidenotside", "side=notside)"),
                                                               "notinside(p,vs,side=notside)")
     ctx.check(ok, "T9-derived", f, "outside(side) = not inside(not side): %s" % (src(r[0].value) if r else "?"), "boundary points are outside exactly when they are not inside")
+    # tween2 (the on-side test everything above relies on): `True` only for a point that is collinear with the side AND
+    # within its extent measured along the side (0 <= a.b <= b.b), so that vertical and slanted sides are treated alike
+    ctx.rule("T9-tween", "tween2 returns True only after: trip(a, b) == 0, a.b >= 0 and a.b <= b.b (extent measured along the side)")
+    tw2 = ctx.fn("aid.vectoring", "tween2")
+    T = FuncView(ctx, tw2)
+    trues = [n for n in T.cfg.nodes if n.kind == "return" and not (isinstance(n.ast.value, ast.Constant) and n.ast.value.value in (False, None))]
+    T.need(trues, "a return that can answer True in tween2")
+    ok = True
+    for r in trues:
+        fs = {f.replace(" ", "") for f in T.facts(r)}
+        if not isinstance(r.ast.value, ast.Constant):
+            # `return <condition>`: the condition holds whenever the answer is True
+            ev = T.sym(r.ast.value, r)
+            for part in (ev.values if isinstance(ev, ast.BoolOp) and isinstance(ev.op, ast.And) else [ev]):
+                fs.add(src(part).replace(" ", ""))
+        sy = set()
+        for f in T.facts(r):
+            try:
+                e = ast.parse(f, mode="eval").body
+                sy.add(src(T.sym(e, r)).replace(" ", ""))
+            except SyntaxError:
+                pass
+        fs |= sy
+        degenerate = any(f.startswith("dot(sub(v,u),sub(v,u))==0") or f in ("dbb==0",) for f in fs)
+        if degenerate:
+            continue
+        col = any("trip(" in f and ("==0" in f or "notdot" in f) for f in fs) or any(f.startswith("nottrip(") for f in fs)
+        lo = any(f.replace("not", "").startswith("dot(sub(p,u),sub(v,u))") and ("<0" in f and f.startswith("not") or ">=0" in f) for f in fs)
+        hi = any(f.startswith("not") and "dot(sub(p,u),sub(v,u))>" in f for f in fs) or any("dot(sub(p,u),sub(v,u))<=" in f for f in fs)
+        ok = ok and col and lo and hi
+    ctx.check(ok, "T9-tween", tw2, "tween2: collinear (trip == 0) and 0 <= a.b <= b.b on every path that answers True",
+              "testing the extent on one coordinate only makes every point collinear with a vertical side count as on that side: "
+              "outside points are reported inside / on the boundary")
